@@ -28,7 +28,7 @@ def run(chk, tier, scale=1.0):
     if tier == "quick":
         nops = int(125000 * scale)
         plan = [("int", 10), ("int", 300), ("intx", 28), ("intx", 200), ("charp", 12), ("charp", 500),
-                ("voidp", 16), ("voidp", 2000)]
+                ("voidp", 16), ("voidp", 2000), ("int", 4), ("charp", 5)]
     else:
         nops = int(3000000 * scale)
         plan = [("int", 10), ("int", 100), ("int", 1000), ("int", 10000), ("intx", 14), ("intx", 28), ("intx", 200),
@@ -40,7 +40,11 @@ def run(chk, tier, scale=1.0):
     shapes_total = 0
     for argv, rc, so, se, hang, crash, san in res:
         case = " ".join(argv)
-        m = re.search(r"STATS ops=(\d+) audits=(\d+) cleanups=(\d+) replacements=(\d+) absent_probes=(\d+) ids=(\d+) violations=(\d+)", so)
+        mr = re.search(r"STATS reinserted=(\d+) reinserted_into_empty=(\d+)", so)
+        if mr:
+            chk.count("recycled_nodes_reinserted", int(mr.group(1)))
+            chk.count("recycled_nodes_reinserted_into_empty_set", int(mr.group(2)))
+        m = re.search(r"ops=(\d+) audits=(\d+) cleanups=(\d+) replacements=(\d+) absent_probes=(\d+) ids=(\d+) violations=(\d+)", so)
         if m:
             for k, v in zip(["operations", "audits", "cleanup_calls", "replacements", "absent_key_probes", "elements_created"],
                             m.groups()):
